@@ -13,34 +13,51 @@ From AV Require Import Base.Prelude Model.Match.
    Returns (completed options in reverse order, current option reversed, quoted, escaped, rest)
    where rest is line[idx:] : from the unquoted blank that ended the loop, or the last character
    when the loop ran to the end (idx keeps the last index). *)
-(* [keep] = true: the code since repair 2e10b73 - a backslash is dropped only in front of a double
-   quote, in front of anything else it is kept (option += ch if ch == QUOTE else BACKSLASH + ch);
-   keep = false: the code before, every backslash dropped (used by the _old refutation only). *)
-Fixpoint tok_gen (keep : bool) (s : text) (quoted escaped : bool) (cur : text) (acc : list text) (last : text)
+(* [mode] selects the treatment of a backslash:
+   TLook  the code of record (since repair fd4aee3): a backslash is an escape only directly in front
+          of a double quote; in front of anything else it is kept and that character is then handled
+          as usual (so it may itself be a backslash that escapes a following quote);
+   TPair  the code between 2e10b73 and fd4aee3: the backslash is kept but the next character is
+          consumed with it;
+   TDrop  the code before 2e10b73: every backslash is dropped and the next character kept.
+   TPair and TDrop are used by the _old refutations only. *)
+Inductive tokmode := TLook | TPair | TDrop.
+
+Fixpoint tok_gen (mode : tokmode) (s : text) (quoted escaped : bool) (cur : text) (acc : list text) (last : text)
   : list text * text * bool * bool * text :=
   match s with
   | [] => (acc, cur, quoted, escaped, last)
   | ch :: r =>
-      if escaped then
-        tok_gen keep r quoted false (if keep && negb (ch =? 34) then ch :: 92 :: cur else ch :: cur) acc [ch]
-      else if ch =? 92 then tok_gen keep r quoted true cur acc [ch]
-      else if ch =? 34 then tok_gen keep r (negb quoted) false cur acc [ch]
-      else if quoted then tok_gen keep r quoted false (ch :: cur) acc [ch]
-      else if (ch =? 32) || (ch =? 9) then (acc, cur, false, false, s)
-      else if ch =? 44 then tok_gen keep r quoted false [] (rev cur :: acc) [ch]
-      else tok_gen keep r quoted false (ch :: cur) acc [ch]
+      let consume :=      (* the escaped character is taken literally and the escape ends *)
+        match mode with
+        | TDrop => escaped
+        | TPair => escaped
+        | TLook => escaped && (ch =? 34)
+        end in
+      if consume then
+        tok_gen mode r quoted false
+          (match mode with TPair => if ch =? 34 then ch :: cur else ch :: 92 :: cur | _ => ch :: cur end) acc [ch]
+      else
+        let cur := if escaped then 92 :: cur else cur in      (* TLook: the pending backslash is kept *)
+        if ch =? 92 then tok_gen mode r quoted true cur acc [ch]
+        else if ch =? 34 then tok_gen mode r (negb quoted) false cur acc [ch]
+        else if quoted then tok_gen mode r quoted false (ch :: cur) acc [ch]
+        else if (ch =? 32) || (ch =? 9) then (acc, cur, false, false, s)
+        else if ch =? 44 then tok_gen mode r quoted false [] (rev cur :: acc) [ch]
+        else tok_gen mode r quoted false (ch :: cur) acc [ch]
   end.
 
-Definition tok := tok_gen true.
+Definition tok := tok_gen TLook.
 
 (* raw option strings handed to _add_option (in order), and the text after the options;
    None = "Unbalanced quote" / "Unbalanced backslash" *)
-Definition tokenize_gen (keep : bool) (line : text) : option (list text * text) :=
-  let '(acc, cur, quoted, escaped, rest) := tok_gen keep line false false [] [] [] in
+Definition tokenize_gen (mode : tokmode) (line : text) : option (list text * text) :=
+  let '(acc, cur, quoted, escaped, rest) := tok_gen mode line false false [] [] [] in
   if quoted || escaped then None else Some (rev (rev cur :: acc), strip rest).
 
-Definition tokenize := tokenize_gen true.
-Definition tokenize_old := tokenize_gen false.
+Definition tokenize := tokenize_gen TLook.
+Definition tokenize_mid := tokenize_gen TPair.
+Definition tokenize_old := tokenize_gen TDrop.
 
 (* ---- option values ------------------------------------------------------------------------------ *)
 Inductive oval :=
